@@ -48,6 +48,8 @@ VARIANTS = [
     _pm("ch_vine_ilist_introws", "pm-chain", BOUNDARY=0, COLT="INTRUSIVE_LIST", Z2=1, VINE=1, ROWS=1, INTR_ROWS=1),
     _pm("ch_rep_set_zp", "pm-chain", BOUNDARY=0, COLT="SET", Z2=0, REP=1),
     _pm("ch_vine_uset_mapc_remc", "pm-chain", BOUNDARY=0, COLT="UNORDERED_SET", Z2=1, VINE=1, MAPC=1, REM_COLS=1, PAIR=1, ROWS=1, INTR_ROWS=0, REM_ROWS=1),
+    # chain matrix addressed by identifiers (Id_to_index_overlay over a chain matrix: its dictionary is a member of the chain matrix)
+    _pm("ch_ide_list_z2", "pm-chain", BOUNDARY=0, IDX="IDENTIFIER", COLT="LIST", Z2=1, PAIR=1),
     # further option sets (thorough tier)
     _pm("b_iset_z2_introws_mapc_swaps", "pm-base", BASE=1, COLT="INTRUSIVE_SET", Z2=1, ROWS=1, INTR_ROWS=1, REM_ROWS=1, MAPC=1, SWAPS=1),
     _pm("bd_ilist_zp_introws_mapc_remc", "pm-boundary", COLT="INTRUSIVE_LIST", Z2=0, ROWS=1, INTR_ROWS=1, REM_ROWS=1, MAPC=1, REM_COLS=1, PAIR=1, MAXDIM=1),
